@@ -50,6 +50,11 @@ CHECKS = {
             'limit are accepted, oversize input ends the session, at most 16 packets of a body are processed.',
             'Trusted: CrossHair, z3, the simulated environment. The limit ranges over 1..MAXM because the OPEN packet renders it in decimal '
             '(str of an unbounded symbolic int is not exhaustible). Known finding F6 waived for the oversize-POST-never-completes state classes.', '§3 C14'),
+    'C19': (XH + '; JSONP bodies of symbolic payload texts evaluated by an independent ES2019 string-literal evaluator; request sequences on both servers with an unbounded symbolic compression threshold, Accept-Encoding table and tagging stubs for zlib/gzip',
+            'For every payload text inside the bound the JSONP body is exactly one ___eio[i]("...") statement whose literal evaluates to the payload; '
+            'for every threshold (any integer), Accept-Encoding shape and request order in the tables a Content-Encoding is declared only if offered, '
+            'enabled and the body reached the threshold, the body is exactly the declared transform of the payload, and labels never leak to later responses or other server instances.',
+            'Trusted: CrossHair, z3, the JS literal evaluator (oracle), zlib/gzip losslessness (validated concretely per run).', '§3 C19'),
 }
 
 NOT_BUILT = 'check not built yet in this round (see DESIGN.md §8 build order); not claimed until it runs'
